@@ -342,20 +342,48 @@ def vjobs(profile, fams):
     return [('vec', f, profile) for f in fams]
 
 
+SET_FLAT = ['ETriv_flat', 'ETr_flat', 'ENonTr_flat']
+SET_SMALL = ['ETriv_small', 'ETr_small', 'ENonTr_small']
+SET_HOOKS = ['ETr_flat', 'ENonTr_flat', 'ETr_small', 'ENonTr_small']
+
+
+def sjobs(profile, fams):
+    return [('set', f, profile) for f in fams]
+
+
 HIST_RULE = ('seeded operation histories (profile "%s") over a pool of 2-5 vectors of one family (13 families: 4 element categories x '
              '{basic, mixed, limits} allocator/size_type/N mixes + a pointer-overlap family); an evaluation is one run (one seed = one plan '
              'of ~25 operations plus its environment stream); distinct_nontrivial counts %s')
 CHECKS = {
     'C01': dict(level='exploration', jobs=vjobs('hist', VEC_ALL), quick=('asan', 40), thorough=[('plain', 420), ('asan', 300)], cellprop='1',
                 rule=HIST_RULE % ('hist', '(type, operation kind, state class of target, state class of partner, outcome) cells reached')),
-    'C02': dict(level='exploration', jobs=vjobs('hist', VEC_HOOKS) + vjobs('inline', VEC_HOOKS[:6]), quick=('asan', 40),
+    'C02': dict(level='exploration', jobs=vjobs('hist', VEC_HOOKS) + vjobs('inline', VEC_HOOKS[:6]) + sjobs('sethist', SET_HOOKS) + sjobs('setsmall', SET_HOOKS[2:]), quick=('asan', 40),
                 thorough=[('plain', 420), ('asan', 300)], cellprop='1',
                 rule=HIST_RULE % ('hist/inline, identity-recording element types only',
                                   '(type, operation kind, state classes, outcome) cells reached with the element ledger balanced after the step')),
-    'C05': dict(level='exploration', jobs=vjobs('inline', VEC_ALL), quick=('asan', 40), thorough=[('plain', 420), ('asan', 240)], cellprop='5',
+    'C03': dict(level='exploration', jobs=sjobs('sethist', SET_FLAT), quick=('asan', 40), thorough=[('plain', 420), ('asan', 300)], cellprop='3',
+                rule='seeded operation histories (profile "sethist") over a pool of 2-4 FlatSets of one family (3 element categories; underlying '
+                     'amc::vector / SmallVector<4> / FixedCapacityVector<12> / std::vector; two comparator types, transparent variant; comparator '
+                     'mode less / greater / coarse drawn per run, sets of the second comparator type get another mode); an evaluation is one run; '
+                     'distinct_nontrivial counts (type, operation, size bucket, partner) cells reached with the std::set model agreeing'),
+    'C04': dict(level='exploration', jobs=sjobs('setsmall', SET_SMALL) + sjobs('sethist', SET_SMALL), quick=('asan', 40),
+                thorough=[('plain', 420), ('asan', 300)], cellprop='4',
+                rule='seeded operation histories (profiles "setsmall": key domain 3-9, grow_past_N / drain / refill macros, merges and comparisons '
+                     'between sets of different N, comparator type and backing; "sethist") over a pool of SmallSets (N in {1,2,3,5}, std::set and '
+                     'FlatSet backing); distinct_nontrivial counts (type, operation, |content|, state inline/large, crosses-boundary?, partner state) cells'),
+    'C11': dict(level='exploration', jobs=sjobs('setsmall', SET_SMALL), quick=('asan', 40), thorough=[('plain', 420), ('asan', 300)], cellprop='11',
+                rule='SmallSet histories with full forward and reverse walks after every step, erase(position) at every position including the last '
+                     'element of a large set, bounded erase-while-iterating loops; returned iterators are matched against a fresh walk before any '
+                     'dereference; distinct_nontrivial counts (type, operation, |content|, state, crosses-boundary?, iterator class end/element) cells'),
+    'C19': dict(level='exploration', jobs=sjobs('setcmp', SET_FLAT) + sjobs('setsmall', SET_SMALL), quick=('plain', 30), thorough=[('plain', 420)],
+                thorough_profile_map={'setcmp': 'setcmp_big'}, cellprop='19',
+                rule='comparator-seam call counter on every lookup / position search of FlatSet histories with bulk-built sets of up to 1024 (quick) / '
+                     '4096 (thorough) elements, hinted insertion with the correct hint computed from the model half of the time, and on inline '
+                     'SmallSet lookups; distinct_nontrivial counts (type, call, size bucket, comparator calls used) cells'),
+    'C05': dict(level='exploration', jobs=vjobs('inline', VEC_ALL) + sjobs('setinline', SET_SMALL), quick=('asan', 40), thorough=[('plain', 420), ('asan', 240)], cellprop='5',
                 rule=HIST_RULE % ('inline: sizes biased to stay within N, heavy copy/move/swap/ctor between containers',
                                   '(type, operation kind, state class) cells executed while the inline promise was in force')),
-    'C06': dict(level='exploration', jobs=vjobs('hist', VEC_ALL) + vjobs('inline', VEC_SMALL), quick=('asan', 40),
+    'C06': dict(level='exploration', jobs=vjobs('hist', VEC_ALL) + vjobs('inline', VEC_SMALL) + sjobs('sethist', SET_FLAT + SET_SMALL), quick=('asan', 40),
                 thorough=[('plain', 420), ('asan', 300)], cellprop='1',
                 rule=HIST_RULE % ('hist/inline under 4 allocator kinds (amc wrapper over simulated basic allocator, std-like exact-count, std-like '
                                   'with reallocate, default amc::allocator over wrapped malloc)', '(type, operation, state classes, outcome) cells '
@@ -367,7 +395,7 @@ CHECKS = {
                 rule=HIST_RULE % ('limit: fill_to_limit_minus(k) then every growing operation around the boundary',
                                   '(type, operation, distance to limit, count/position class, exception class) cells where a capacity-limit '
                                   'error was expected and checked')),
-    'C09': dict(level='fault_enumeration', jobs=vjobs('scenario', VEC_HOOKS + ['ETriv_basic', 'ETriv_mixed']) + vjobs('fault', VEC_HOOKS + ['ETriv_mixed']),
+    'C09': dict(level='fault_enumeration', jobs=vjobs('scenario', VEC_HOOKS + ['ETriv_basic', 'ETriv_mixed']) + vjobs('fault', VEC_HOOKS + ['ETriv_mixed']) + sjobs('scenario', SET_HOOKS) + sjobs('setfault', SET_HOOKS),
                 quick=('asan', 50), thorough=[('plain', 600), ('asan', 300)], cellprop='9',
                 rule='mode A: a scenario (pool, prefix history of 0-12 operations, one final operation) is drawn by seed and its final operation is '
                      'executed once per fault index k=0,1,2,... for each fault kind (element throw, allocator failure) until an execution completes '
@@ -381,7 +409,7 @@ CHECKS = {
     'C13': dict(level='exploration', jobs=vjobs('swap2', VEC_ALL), quick=('asan', 40), thorough=[('plain', 420), ('asan', 240)], cellprop='13',
                 rule=HIST_RULE % ('swap2: operand states steered by macro operations, swap2 between any two pool members, interleaved with '
                                   'ordinary operations', '(ordered type pair, state class pair, outcome) cells')),
-    'C14': dict(level='exploration', jobs=vjobs('reloc', VEC_ALL), quick=('asan', 40), thorough=[('plain', 420), ('asan', 240)], cellprop='14',
+    'C14': dict(level='exploration', jobs=vjobs('reloc', VEC_ALL) + sjobs('setreloc', SET_FLAT + SET_SMALL), quick=('asan', 40), thorough=[('plain', 420), ('asan', 240)], cellprop='14',
                 rule=HIST_RULE % ('reloc: "memcpy the container object to a fresh address, scribble and free the old bytes" as a generated operation',
                                   '(type, state class at relocation) and (type, state class, following operation) cells')),
     'C18': dict(level='exploration', jobs=vjobs('growth', [f for f in VEC_ALL]), quick=('plain', 30),
@@ -476,6 +504,8 @@ def run_sim_check(prop, tier, seed, seconds_override=None):
     jobs = spec['jobs']
     if tier == 'thorough' and spec.get('thorough_profile'):
         jobs = [(e, f, spec['thorough_profile'] if p != 'scenario' else p) for (e, f, p) in jobs]
+    if tier == 'thorough' and spec.get('thorough_profile_map'):
+        jobs = [(e, f, spec['thorough_profile_map'].get(p, p)) for (e, f, p) in jobs]
     for (variant, seconds) in phases:
         binaries[variant] = build(variant)
     for (variant, seconds) in phases:
